@@ -76,8 +76,8 @@ def select_quick(lattice, seed):
     """(1) every compatible configuration one factor away from a base configuration: the default (WebRtc, data
     channel) and, per direct mode, audio+video with everything else default; (2) per direct mode with audio+video the
     product of the per-side SDP compatibility modes, the offerer and who renegotiates (transport layout per m-line
-    is decided per side and per description); (3) a seeded stratified sample: each value of each factor appears in
-    at least two further configurations."""
+    is decided per side and per description); (3) a seeded stratified sample: for each value of each factor its closest
+    representative and one random one."""
     import random
     rnd = random.Random(seed)
     chosen = {}
@@ -96,7 +96,7 @@ def select_quick(lattice, seed):
             vals.setdefault(json.dumps(norm(c)[f]), []).append(c)
         for v, cs in sorted(vals.items()):
             best = sorted(cs, key=lambda c: (min(distance(c, b) for b in bases), key(c)))
-            for c in best[:1] + rnd.sample(cs, min(2, len(cs))):
+            for c in best[:1] + rnd.sample(cs, min(1, len(cs))):
                 chosen.setdefault(key(c), c)
     return [chosen[k] for k in sorted(chosen)]
 
@@ -119,19 +119,27 @@ def select_thorough(lattice, seed):
 # --------------------------------------------------------------------------- harness + validation
 
 def run_harness(ck, scenarios, label, nshards):
-    spath = os.path.join(ck.dir, f"scenarios_{label}.ndjson")
+    # files are written under a per-process name (two runs of this check may share the output directory) and
+    # moved to the plain name afterwards, where the last run's recordings stay for inspection
+    mine = f"{label}.{os.getpid()}"
+    spath = os.path.join(ck.dir, f"scenarios_{mine}.ndjson")
     vlib.write_ndjson(spath, scenarios)
-    outs = [os.path.join(ck.dir, f"trace_{label}_{i}.ndjson") for i in range(nshards)]
+    outs = [os.path.join(ck.dir, f"trace_{mine}_{i}.ndjson") for i in range(nshards)]
 
     def one(i):
         p = vlib.run_bin("life", ["run", spath, outs[i], f"{i}/{nshards}"], timeout=2400)
         if p.returncode != 0:
             raise vlib.ToolError(f"life shard {i} failed rc={p.returncode}: {p.stderr[-1500:]}")
-    with ThreadPoolExecutor(max_workers=nshards) as ex:
-        list(ex.map(one, range(nshards)))
-    runs = []
-    for o in outs:
-        runs += lc.split_scenarios(o)
+    try:
+        with ThreadPoolExecutor(max_workers=nshards) as ex:
+            list(ex.map(one, range(nshards)))
+        runs = []
+        for o in outs:
+            runs += lc.split_scenarios(o)
+    finally:
+        for o in outs + [spath]:
+            if os.path.exists(o):
+                os.replace(o, o.replace(f".{os.getpid()}", ""))
     runs.sort(key=lambda evs: evs[0]["scenario"]["id"])
     return runs
 
@@ -261,6 +269,7 @@ def lattice_from_tlc(ck):
 
 
 def run(tier):
+    lc.exclusive(vlib, PID)
     ck = vlib.Check(PID, tier)
     vlib.OUT = ck.dir
     vlib.build_harness(["life"])
@@ -329,6 +338,7 @@ def run(tier):
 
 
 def replay(path):
+    lc.exclusive(vlib, PID)
     ck = vlib.Check(PID, "quick")
     vlib.OUT = ck.dir
     vlib.build_harness(["life"])
@@ -347,6 +357,7 @@ def replay(path):
 def selftest():
     """(i) each deviation of the pair model violates the invariant it is about;
     (ii) a recorded good trace with a corrupted key hash / role / delivery verdict is flagged."""
+    lc.exclusive(vlib, PID + "-selftest")
     ck = vlib.Check(PID + "-selftest", "quick")
     vlib.OUT = ck.dir
     ok = True
